@@ -103,7 +103,10 @@ impl Ctx {
             json_str(descr)
         );
         let _ = std::fs::create_dir_all(&self.replay_dir);
-        let _ = std::fs::write(&file, body);
+        if self.rep.violations.len() < 40 {
+            // replay files only for the witnesses that are reported (the rest are counted)
+            let _ = std::fs::write(&file, body);
+        }
         let detail = format!("\"operation\":{},\"observed\":{},\"expected\":{}", json_str(&descr.chars().take(300).collect::<String>()), json_str(&observed.chars().take(200).collect::<String>()), json_str(&expected.chars().take(200).collect::<String>()));
         self.rep.violation(&sig, what, &file, &detail);
     }
